@@ -297,6 +297,8 @@ class Search:
         self.out_kinds = {}
         self.eof_baseline = None
         self.tag_counts = {}
+        self.merges = {}          # (event kind, reply kind or '', depth of the merged path) -> [(target sid, from sid, ev, cev)]
+        self.merge_cap = 4
 
     def history(self, sid):
         h, s = [], sid
@@ -407,6 +409,14 @@ class Search:
                         ok = self.out_kinds.setdefault(kind, set())
                         if len(ok) < 200:
                             ok.add(rec['kinds'])
+                        if rec['key'] in self.index and not rec['V']:
+                            # a second history reaching a known state: kept (bounded) for the merge-soundness differential
+                            tgt = self.index[rec['key']]
+                            d = self.states[sid].depth + 1
+                            if d <= 8 and tgt != sid:
+                                b = self.merges.setdefault((rec['ev'][0], rec['ev'][-1] if rec['ev'][0] in ('X', 'P') else '', min(d, 5)), [])
+                                if len(b) < self.merge_cap:
+                                    b.append((tgt, sid, rec['ev'], rec['cev']))
                         if rec['key'] not in self.index:
                             if 'M' not in rec:
                                 continue  # reported in full earlier by the same worker; already queued
@@ -429,6 +439,53 @@ class Search:
             pool.terminate()
             pool.join()
         return self
+
+    # -- merge-soundness differential ---------------------------------------------------------------
+    def merge_suffixes(self, i):
+        """Continuations that start a fresh instance of client i and take it to its verdict."""
+        svcs = [n for n, t in self.services]
+        S = []
+        S.append([('C', i), ('H', i), ('P', i, 'x')] + [('X', i, sv, 'cur', 'OKA') for sv in svcs] + [('X', i, sv, 'cur', 'OK') for sv in svcs])
+        S.append([('C', i), ('P', i, 'nobang'), ('N', i), ('u', i), ('n', i), ('U', i)] + [('X', i, sv, 'cur', 'OK') for sv in svcs] + [('H', i)])
+        S.append([('C', i), ('H', i), ('P', i, 'bang')] + [('X', i, sv, 'cur', 'OKE') for sv in svcs[:1]] + [('X', i, sv, 'cur', 'NO') for sv in svcs[:1]] + [('D', i)])
+        return S
+
+    def merge_check(self, limit=400):
+        """Two histories that the search merged (same canonical daemon + observer state) must treat a newly announced
+        client identically: runs each continuation after both histories on the real daemon and compares what is written
+        (routing serials masked).  Returns (pairs checked, [(text, replay)])."""
+        pairs = [m for b in sorted(self.merges) for m in self.merges[b]][:limit]
+        if not pairs:
+            return 0, []
+        bad = []
+        i = self.ids[0]
+        srv = e1.Server(self.conf, builddir=self.b)
+        try:
+            for tgt, frm, ev, cev in pairs:
+                hist_a = self.history(tgt)
+                hist_b = self.history(frm) + [cev]
+                ser_a = self.states[tgt].serial
+                ser_b = self.states[frm].serial + (1 if ev[0] == 'C' else 0)
+                for suf in self.merge_suffixes(i):
+                    outs = []
+                    for hist, ser in ((hist_a, ser_a), (hist_b, ser_b)):
+                        ctx = {'cur': {i: ser + 1}, 'old': {}, 'serial': ser}
+                        conc = [proto.render(e, ctx) for e in suf]
+                        res, status, err, ex = srv.trace(list(hist) + conc, 0)
+                        steps = res[len(hist):]
+                        outs.append((status, [tuple(_norm_line(l) for l in r.out) for r in steps]))
+                    if outs[0] != outs[1]:
+                        k = next((n for n in range(min(len(outs[0][1]), len(outs[1][1]))) if outs[0][1][n] != outs[1][1][n]), None)
+                        ha = ' | '.join(proto.ev_str(e) for e in self.sym_history(tgt)) or '-'
+                        hb = ' | '.join(proto.ev_str(e) for e in self.sym_history(frm) + [ev])
+                        text = ('the histories [%s] and [%s] leave the daemon in the same visible state, yet a client announced afterwards is treated differently: at "%s" the daemon writes %r after the first and %r after the second'
+                                % (ha, hb, proto.ev_str(suf[k]) if k is not None else 'end', list(outs[0][1][k]) if k is not None else outs[0][0], list(outs[1][1][k]) if k is not None else outs[1][0]))
+                        bad.append((text, {'engine': 'E1-merge', 'conf': self.conf, 'hist_a': [list(map(_jsonable, c)) for c in hist_a], 'hist_b': [list(map(_jsonable, c)) for c in hist_b],
+                                           'suffix': [list(e) for e in suf], 'serial_a': ser_a, 'serial_b': ser_b, 'id': i}))
+                        break
+        finally:
+            srv.close()
+        return len(pairs), bad
 
     # -- reporting helpers ----------------------------------------------------------------------
     def replay_obj(self, sid, ev, cev, extra=None):
